@@ -5,6 +5,7 @@ import (
 	"flag"
 	"fmt"
 	"os"
+	"strconv"
 	"strings"
 	"time"
 )
@@ -19,6 +20,8 @@ func main() {
 		os.Exit(cmdRun(os.Args[2:]))
 	case "check":
 		os.Exit(cmdCheck(os.Args[2:]))
+	case "replay":
+		os.Exit(cmdReplay(os.Args[2:]))
 	default:
 		fmt.Fprintln(os.Stderr, "unknown command", os.Args[1])
 		os.Exit(2)
@@ -35,6 +38,7 @@ func cmdRun(args []string) int {
 	workers := fs.Int("workers", 0, "workers")
 	maxPaths := fs.Int("maxpaths", 0, "path limit")
 	out := fs.String("out", "", "write JSON result")
+	paramS := fs.String("params", "", "k=v,k=v harness parameters")
 	fs.Parse(args)
 	eng, err := LoadEngine(*repo, *overlay, []string{*pkg})
 	if err != nil {
@@ -42,6 +46,13 @@ func cmdRun(args []string) int {
 		return 2
 	}
 	fmt.Fprintf(os.Stderr, "loaded in %v\n", eng.loadTime)
+	params := map[string]int64{}
+	for _, kv := range strings.Split(*paramS, ",") {
+		if k, v, ok := strings.Cut(kv, "="); ok {
+			n, _ := strconv.ParseInt(v, 10, 64)
+			params[k] = n
+		}
+	}
 	rc := 0
 	var results []*HarnessResult
 	for _, h := range strings.Split(*harness, ",") {
@@ -50,7 +61,7 @@ func cmdRun(args []string) int {
 			fmt.Fprintln(os.Stderr, "no such harness:", h)
 			return 2
 		}
-		res := eng.Explore(fn, ExploreOpts{Workers: *workers, MaxPaths: *maxPaths, MaxViolations: 3, Tier: *tier, SampleEvery: 50, MaxSamples: 10})
+		res := eng.Explore(fn, ExploreOpts{Workers: *workers, MaxPaths: *maxPaths, MaxViolations: 3, Tier: *tier, SampleEvery: 50, MaxSamples: 10, Params: params})
 		results = append(results, res)
 		fmt.Printf("%s: paths=%d completed=%d vacuous=%d inconclusive=%d violations=%d decisions=%d forced=%d instrs=%d queries=%d (sat %d unsat %d unknown %d) solver=%v wall=%v\n",
 			res.Harness, res.Paths, res.Completed, res.Vacuous, res.Inconclusive, len(res.Violations), res.Decisions, res.Forced, res.Instrs,
